@@ -20,12 +20,25 @@ def read(data, **kw):
         os.unlink(fn); os.rmdir(d)
 
 
+# repaired in /repo (efe7e45, c8ef5ea, f1984b1): these cases now ASSERT the repaired behaviour
+REPAIRED = {"dict_boolean_v1_w2": "ok", "dict_boolean_v1_w3": "ok", "dict_boolean_v1": "ok", "v1_rle_boolean": "ok",
+            "v1_bit_packed_levels": "NotImplementedError"}
+FAILED = []
+
+
 def case(name, fn):
+    want = REPAIRED.get(name)
     try:
         r = fn()
         print(f"[{name}] ->", r)
+        good = want is None or (want == "ok" and isinstance(r, dict) and (r.get("ok") is True or r.get("read") == r.get("expected")))
     except Exception as ex:
         print(f"[{name}] RAISES {type(ex).__name__}: {str(ex)[:200]}")
+        good = want is None or want == type(ex).__name__
+    if want is not None:
+        print(f"     repaired behaviour ({want}): {'PASS' if good else 'FAIL'}")
+        if not good:
+            FAILED.append(name)
 
 
 def v2_dict_categorical():
@@ -181,3 +194,45 @@ if __name__ == "__main__":
     for k, f in more.items():
         if not sel or k in sel:
             case(k, f)
+
+
+def mask_cases():
+    """C13: caller-supplied row mask through core.read_col (files written by fastparquet itself with small pages)"""
+    import fastparquet.writer as fw
+    out = {}
+
+    def roundtrip(df, mask, version=1, page=64):
+        d = tempfile.mkdtemp(prefix="c03p")
+        fn = os.path.join(d, "f.parquet")
+        old, oldv = fw.MAX_PAGE_SIZE, fw.DATAPAGE_VERSION
+        fw.MAX_PAGE_SIZE, fw.DATAPAGE_VERSION = page, version
+        try:
+            fastparquet.write(fn, df)
+        finally:
+            fw.MAX_PAGE_SIZE, fw.DATAPAGE_VERSION = old, oldv
+        try:
+            got = ParquetFile(fn).to_pandas(row_filter=mask)
+            col = df.columns[0]
+            return {"expected": list(df[col][mask]), "read": list(got[col])}
+        finally:
+            os.unlink(fn); os.rmdir(d)
+    out["mask_v1_page_without_selection"] = lambda: roundtrip(pd.DataFrame({"s": ["s%02d" % k for k in range(24)]}), np.arange(24) >= 20)
+    out["mask_v1_nulls_shift_mask_cursor"] = lambda: roundtrip(
+        pd.DataFrame({"s": [None if k % 3 == 0 else "s%02d" % k for k in range(24)]}), np.arange(24) % 2 == 0)
+    out["mask_v1_nulls_before_selection"] = lambda: roundtrip(pd.DataFrame({"s": [None, "b", "c"]}), np.array([False, False, True]), page=10**6)
+    out["mask_v2_multipage"] = lambda: roundtrip(pd.DataFrame({"x": np.arange(40, dtype="int64")}), np.arange(40) % 2 == 0, version=2, page=64)
+    out["mask_v1_multipage_every_page_selected_no_nulls"] = lambda: roundtrip(
+        pd.DataFrame({"s": ["s%02d" % k for k in range(24)]}), np.arange(24) % 2 == 0)
+    return out
+
+
+if __name__ == "__main__":
+    for k, f in mask_cases().items():
+        if (not sel and False) or k in sel or "mask" in sel:
+            case(k, f)
+
+
+if __name__ == "__main__":
+    if FAILED:
+        print("FAILED (repaired behaviour not observed):", FAILED)
+        sys.exit(1)
